@@ -254,6 +254,8 @@ func runOnce(input string) string {
 		return runCsv(kv)
 	case "mas":
 		return runMas(kv, input)
+	case "runend":
+		return runRunEnd(kv)
 	}
 	return "BADINPUT"
 }
@@ -447,6 +449,9 @@ func class(input, obs string) string {
 			k += ":header"
 		}
 	}
+	if k == "runend" {
+		k += ":" + kv["prov"] + ":" + kv["fault"]
+	}
 	if k == "genjson" {
 		if kv["hex"] == "" && kv["passes"] != "0" {
 			return ""
@@ -481,6 +486,8 @@ func class(input, obs string) string {
 		end = "fatal"
 	case strings.Contains(obs, "oom-guard"):
 		end = "oom-guard"
+	case strings.Contains(obs, "end=closed"):
+		end = "closed"
 	case strings.Contains(obs, "end=ok"), strings.HasPrefix(obs, "ok"):
 		end = "ok"
 	case strings.Contains(obs, "err"):
